@@ -453,6 +453,10 @@ def main(argv):
     level = mod.META.get("level", "proof")
     if a.replay:
         return mod.replay(ctx, a.replay) if hasattr(mod, "replay") else 2
+    # serialise runs of the same property against the same tree (they share a build directory)
+    _runlock = open(os.path.join(VERIF, "build", ".lock-run-" + os.path.basename(ctx.build)), "w")
+    fcntl.flock(_runlock, fcntl.LOCK_EX)
+    ctx.t0 = time.time()
     try:
         mod.run(ctx)
     except BuildError as e:
